@@ -85,12 +85,20 @@ def handle (j : Json) : Except String Json := do
     let kappa ← jRat (← field j "kappa")
     let scaled := applyScaler sc told
     let utopia := scaled.bind colMin
-    let fitted := fitTargets single sc strat w ff maxf toldOpt
+    let bounds : Option (List (Option Rat)) ← match j.getObjVal? "bounds" with
+      | .ok (Json.arr a) => do
+        let l ← a.toList.mapM (fun b => match b with
+          | Json.null => pure (none : Option Rat)
+          | b => do return some (← jRat b))
+        pure (some l)
+      | _ => pure none
+    let ubGiven ← jList jRat (fieldD j "ub_scaled" (Json.arr #[]))
+    let fitted := fitTargets single sc strat w ff maxf toldOpt bounds ubGiven
     let targets : Option Vec := match fitted with | .ok v => some v | .error _ => none
     let targetsErr : String := match fitted with | .ok _ => "" | .error e => e
     let pre : Option Vec :=
       if told.length != toldOpt.length then none
-      else if single then targets else mooTargetsPre sc strat w told
+      else if single then targets else if bounds.isSome then none else mooTargetsPre sc strat w told
     let acq := acqLCB kappa mu sd
     let contract : Bool := match sc with
       | .given s => orderPreservingB told s
@@ -106,6 +114,19 @@ def handle (j : Json) : Except String Json := do
         ((targets.bind (fun t => interpolate t cands)).bind chooseNext)),
       ("choice_interp_pre", optJ (fun (n : Nat) => Json.num (JsonNumber.fromNat n))
         ((pre.bind (fun t => interpolate t cands)).bind chooseNext))]
+  | "choice" =>
+    -- verified checker (theorem C05_checker) on a real proposal
+    let score ← jList jRat (← field j "score")
+    let succ ← jList jBool (← field j "succ")
+    let cands ← jList jNat (← field j "cands")
+    let chosen ← jNat (← field j "chosen")
+    return Json.mkObj [("ok", true), ("check", checkChoice score succ cands chosen)]
+  | "lie" =>
+    -- constant-liar lie on the internal (negated) values for a USER-facing strategy name
+    let strategy ← (← field j "strategy").getStr?
+    let cols ← jList (jList jRat) (← field j "cols")
+    let internal := mapMultiPoint strategy
+    return Json.mkObj [("ok", true), ("internal", internal), ("lie", ofRats (cols.map (lieInternal internal)))]
   | _ => throw s!"unknown op {op}"
 
 def main : IO Unit := serveFn handle
